@@ -9,6 +9,7 @@ import (
 	"github.com/freeconf/yang/fc"
 	"github.com/freeconf/yang/meta"
 	"github.com/freeconf/yang/node"
+	"github.com/freeconf/yang/nodeutil"
 	"github.com/freeconf/yang/val"
 	"verif/internal/eng"
 	"verif/internal/model"
@@ -56,6 +57,9 @@ type c08Case struct {
 	Start string `json:"start,omitempty"`
 	Path  string `json:"path,omitempty"`
 	Node  string `json:"node,omitempty"`
+	// Store: what serves the data tree: "" = recording reference store, "json-reader" / "xml-reader" =
+	// the library's document readers over a rendering of the tree
+	Store string `json:"store,omitempty"`
 }
 
 // C08Keys: string key alphabet with reserved characters.
@@ -303,6 +307,14 @@ func (p *c08) Cases(tier string, emit func(interface{})) {
 	emit(c08Case{Part: "absent", Tree: "sparse"})
 	emit(c08Case{Part: "present", Tree: "multi"})
 	emit(c08Case{Part: "relative", Tree: "multi"})
+	for _, st := range []string{"json-reader", "xml-reader"} {
+		emit(c08Case{Part: "present", Tree: "keys", Store: st})
+		emit(c08Case{Part: "absent", Tree: "keys", Store: st})
+		if st == "json-reader" {
+			// the harness renders XML in one namespace: the multi-module tree is left to C19
+			emit(c08Case{Part: "present", Tree: "multi", Store: st})
+		}
+	}
 }
 
 type c08Env struct {
@@ -313,7 +325,7 @@ type c08Env struct {
 	ref *store.Ref
 }
 
-func newC08Env(tree string) *c08Env {
+func newC08Env(tree string, storeKind ...string) *c08Env {
 	m := model.SharedSchema("find")
 	t := c08Tree(m, tree)
 	if tree == "multi" {
@@ -328,6 +340,19 @@ func newC08Env(tree string) *c08Env {
 	}
 	ref := store.NewRef(t.Clone())
 	log := &store.Log{}
+	if len(storeKind) > 0 && storeKind[0] != "" {
+		var n node.Node
+		var err error
+		if storeKind[0] == "json-reader" {
+			n, err = nodeutil.ReadJSON(t.ToJSON(m.DataDefinitions()))
+		} else {
+			n, err = nodeutil.ReadXMLDoc(strings.NewReader(`<data xmlns="` + m.Namespace() + `">` + xmlBody(m.DataDefinitions(), t) + "</data>"))
+		}
+		if err != nil {
+			panic("harness: reader over the tree: " + err.Error())
+		}
+		return &c08Env{m: m, t: t, ref: ref, log: log, b: node.NewBrowser(m, n)}
+	}
 	return &c08Env{m: m, t: t, ref: ref, log: log, b: node.NewBrowser(m, store.Wrap(ref.Node(), log, "dst"))}
 }
 
@@ -433,7 +458,7 @@ func (p *c08) Run(raw json.RawMessage) eng.Result {
 	decode(raw, &c)
 	var res eng.Result
 	ss := &sigSet{res: &res}
-	env0 := newC08Env(c.Tree)
+	env0 := newC08Env(c.Tree, c.Store)
 	m := env0.m
 	var nodes []c08Node
 	c08Nodes(m.DataDefinitions(), env0.t, nil, &nodes)
@@ -462,14 +487,17 @@ func (p *c08) Run(raw json.RawMessage) eng.Result {
 			return
 		}
 		ss.seen[sig] = true
-		res.AddCase(sig, fmt.Sprintf("from %q Find(%q): %s", renderSegs(start, ""), path, what), c08Case{Part: "one", Tree: c.Tree, Start: renderSegs(start, ""), Path: path})
+		res.AddCase(sig, fmt.Sprintf("from %q Find(%q): %s", renderSegs(start, ""), path, what), c08Case{Part: "one", Tree: c.Tree, Store: c.Store, Start: renderSegs(start, ""), Path: path})
 	}
 	checkPresent := func(n c08Node, start []c08Seg, path, variant string) {
-		env := newC08Env(c.Tree)
+		env := newC08Env(c.Tree, c.Store)
 		res.Evals++
 		res.Transitions++
 		res.Nontriv++
 		site := fmt.Sprintf("C08/%s/%s/%s", variant, nodeKind(n), keyClass(n.segs))
+		if c.Store != "" {
+			site = fmt.Sprintf("C08/%s/%s/%s/%s", c.Store, variant, nodeKind(n), keyClass(n.segs))
+		}
 		sel, err, fr, msg := find(env, start, path)
 		switch {
 		case fr != "":
@@ -511,7 +539,7 @@ func (p *c08) Run(raw json.RawMessage) eng.Result {
 	}
 	switch c.Part {
 	case "one":
-		env := newC08Env(c.Tree)
+		env := newC08Env(c.Tree, c.Store)
 		var start []c08Seg
 		sel, err, fr, msg := find(env, nil, c.Start)
 		_ = sel
@@ -596,7 +624,7 @@ func (p *c08) Run(raw json.RawMessage) eng.Result {
 			probe{"c%2Fd", "escaped-slash-in-name", true}, probe{"c/d%2Fx", "escaped-slash-in-name", true}, probe{"nc%2Fnl", "escaped-slash-in-name", true},
 			probe{"c//d", "empty-segment", true}, probe{"c//a", "empty-segment", true}, probe{"s=a//v", "empty-segment", true}, probe{"nc/nope", "unknown-name", true}, probe{"nc/shallow", "maybe-absent-container", false})
 		for _, pr := range probes {
-			env := newC08Env(c.Tree)
+			env := newC08Env(c.Tree, c.Store)
 			res.Evals++
 			res.Transitions++
 			res.States++
